@@ -20,6 +20,8 @@ import (
 
 	"verif/harness/astcmp"
 	"verif/harness/fw"
+	"verif/harness/gen"
+	"verif/harness/render"
 	"verif/harness/seeds"
 )
 
@@ -50,7 +52,7 @@ func main() {
 			"decoder termination is restated as bounded progress: <=64 reads after the reader first returned EOF, plus a wall-clock watchdog with isolated re-run",
 			"presentational flags exempt from the round trip: HasParenthesis, HasComma, Keyword, LongString, Delimiter, Explicit, comments, positions, Nest",
 		},
-		Gen:           gen,
+		Gen:           genCases,
 		Run:           run,
 		Timeout:       30 * time.Second,
 		MinNonTrivial: 500,
@@ -139,6 +141,10 @@ func forced() []rtCase {
 		`ratecounter r { }`,
 		`import x;`,
 		`include "x";`,
+		// statements in blocks that "must be empty", an object nested in a probe object: the parser accepts them
+		`penaltybox p { esi; }`,
+		`ratecounter r { set req.http.A = "b"; log "x"; }`,
+		`backend b { .host = "h"; .probe = { .request = "a"; .probe = { .x = 1; .y = { .z = "2"; } } } }`,
 	}
 	var out []rtCase
 	for _, s := range subs {
@@ -148,7 +154,7 @@ func forced() []rtCase {
 	return out
 }
 
-func gen(g *fw.GenCtx) {
+func genCases(g *fw.GenCtx) {
 	sd := seeds.Load(g.Repo, g.Verif)
 	var srcs []rtCase
 	for _, f := range forced() {
@@ -159,9 +165,17 @@ func gen(g *fw.GenCtx) {
 			srcs = append(srcs, rtCase{Src: p, Snippet: strings.Contains(s.Name, "snippet.vcl")})
 		}
 	}
+	// programs from the grammar-directed generator (every node kind, optional parts present and absent,
+	// director members and scalar properties interleaved, every literal class)
+	nForcedAndSeeds := len(srcs)
+	for k := 0; k < g.Pick(300, 8000); k++ {
+		p := gen.New(rand.New(rand.NewSource(g.Rand.Int63())), gen.Opts{MaxDepth: 3, Decls: 2 + g.Rand.Intn(4)}).Program()
+		srcs = append(srcs, rtCase{Src: render.Canonical(p.Toks)})
+	}
 	for _, s := range srcs {
 		g.Emit("rt", s)
 	}
+	srcs = srcs[:nForcedAndSeeds+g.Pick(40, 400)]
 	// decoder totality: systematic families on a subset, PRNG mutations on all
 	r := g.Rand
 	for i, s := range srcs {
@@ -209,6 +223,16 @@ func gen(g *fw.GenCtx) {
 	for ft := 1; ft < 80; ft += g.Pick(8, 1) {
 		b := bytes.Repeat([]byte{byte(ft), 0xff, 0xff}, 1<<16/3)
 		g.Emit("raw", rawCase{B64: []string{base64.StdEncoding.EncodeToString(b)}})
+	}
+	// much deeper bombs (0.3 / 1 million levels, behind a statement header that expects an expression and bare):
+	// they overflow the 64 MiB worker stack unless the decoder bounds its recursion
+	for ft := 1; ft < 80; ft += g.Pick(4, 1) {
+		levels := g.Pick(300000, 1000000)
+		for _, lenBytes := range [][]byte{{0, 0}, {0xff, 0xff}} {
+			unit := append([]byte{byte(ft)}, lenBytes...)
+			b := bytes.Repeat(unit, levels)
+			g.Emit("raw", rawCase{B64: []string{base64.StdEncoding.EncodeToString(b), base64.StdEncoding.EncodeToString(append([]byte{0x21, 0, 0}, b...))}})
+		}
 	}
 }
 
@@ -323,7 +347,9 @@ func roundTrip(oc *fw.Outcome, s ast.Statement, src string) (enc []byte) {
 	var bin []byte
 	var err error
 	p, msg, st := fw.Guard(func() { bin, err = codec.NewEncoder().Encode(s) })
-	detail := func() map[string]any { return map[string]any{"source": clip(src, 400), "statement": clip(safeString(s), 400)} }
+	detail := func() map[string]any {
+		return map[string]any{"source": clip(src, 400), "statement": clip(safeString(s), 400)}
+	}
 	if p {
 		oc.Violate("enc-"+fw.PanicKey(st)+"/"+kind, "Encode panicked: "+msg+"\n"+fw.TrimStack(st), detail())
 		return nil
